@@ -29,16 +29,26 @@ class Trace:
         self.latency = None       # callable(kind, key) -> seconds
         self.fail = None          # callable(kind, key) -> Exception or None
 
-    def record(self, kind, key, info=None):
+    def record(self, kind, key, info=None, t0=None):
         task = getattr(CURRENT, "task", None)
+        t1 = time.monotonic_ns()
         with self.lock:
-            self.events.append((len(self.events), kind, key, info, task))
+            self.events.append((len(self.events), kind, key, info, task, t0 if t0 is not None else t1, t1))
         if self.logfile:
             fd = os.open(self.logfile, os.O_WRONLY | os.O_APPEND | os.O_CREAT)
             try:
-                os.write(fd, f"{time.monotonic_ns()} {os.getpid()} {kind} {key} {info}\n".encode())
+                os.write(fd, f"{t0 if t0 is not None else t1} {t1} {os.getpid()} {kind} {key} {info}\n".encode())
             finally:
                 os.close(fd)
+
+    def load_log(self):
+        """Events written by other processes (CLOCK_MONOTONIC is system-wide on Linux)."""
+        out = []
+        if self.logfile and os.path.exists(self.logfile):
+            for i, line in enumerate(open(self.logfile).read().splitlines()):
+                t0, t1, pid, kind, key, info = line.split(" ", 5)
+                out.append((i, kind, key, info, None, int(t0), int(t1)))
+        return out
 
     def clear(self):
         with self.lock:
@@ -65,8 +75,9 @@ class TracingStore(WrapperStore):
             d = t.latency("get", key)
             if d:
                 time.sleep(d)
+        t0 = time.monotonic_ns()
         r = await super().get(key, prototype, byte_range)
-        t.record("get", key, "hit" if r is not None else "miss")
+        t.record("get", key, "hit" if r is not None else "miss", t0)
         return r
 
     async def set(self, key, value, *a, **kw):
@@ -83,10 +94,11 @@ class TracingStore(WrapperStore):
             d = t.latency("set", key)
             if d:
                 time.sleep(d)
+        t0 = time.monotonic_ns()
         r = await super().set(key, value, *a, **kw)
         if is_chunk_key(key):
             t.chunk_writes += 1
-        t.record("set", key, len(value) if hasattr(value, "__len__") else None)
+        t.record("set", key, len(value) if hasattr(value, "__len__") else None, t0)
         return r
 
     async def delete(self, key):
